@@ -149,8 +149,9 @@ def check_property(pid, prog, meta, tier, cache, extra_progs=(), t0=None, thorou
         "wall_s": round(time.time() - t0, 2),
         "violations": len(new_viols),
     }
-    os.makedirs(os.path.join(VERIF, "evidence"), exist_ok=True)
-    json.dump(ev, open(os.path.join(VERIF, "evidence", pid + ".json"), "w"), indent=1)
+    if not os.environ.get("RSDD_NO_EVIDENCE"):   # set only by tools/seeded.py (runs on a deliberately broken tree)
+        os.makedirs(os.path.join(VERIF, "evidence"), exist_ok=True)
+        json.dump(ev, open(os.path.join(VERIF, "evidence", pid + ".json"), "w"), indent=1)
     return lines, len(new_viols), per_rule
 
 
